@@ -191,6 +191,7 @@ where
     Req: Clone + Send + 'static,
 {
     use tokio::sync::mpsc;
+    use tower::ServiceExt;
 
     let max_attempts = config.max_hedged_attempts;
     let start = Instant::now();
@@ -204,12 +205,15 @@ where
     // Channel to collect results from all attempts
     let (tx, mut rx) = mpsc::channel::<(usize, Result<S::Response, S::Error>)>(max_attempts);
 
-    // Spawn primary request
-    let mut service_clone = service.clone();
+    // Spawn primary request on `service` itself: it is the instance that was driven to
+    // readiness. Hedges are made from a clone of it and drive their own readiness.
+    let hedge_source = service.clone();
+    let mut primary_service = service;
+    let service = hedge_source;
     let req_clone = req.clone();
     let tx_clone = tx.clone();
     tokio::spawn(async move {
-        let result = service_clone.call(req_clone).await;
+        let result = primary_service.call(req_clone).await;
         let _ = tx_clone.send((0, result)).await;
     });
 
@@ -290,11 +294,11 @@ where
                                 timestamp: Instant::now(),
                             });
 
-                            let mut svc = service.clone();
+                            let svc = service.clone();
                             let r = req.clone();
                             let tx_c = tx.clone();
                             tokio::spawn(async move {
-                                let result = svc.call(r).await;
+                                let result = svc.oneshot(r).await;
                                 let _ = tx_c.send((attempt_num, result)).await;
                             });
 
@@ -356,11 +360,11 @@ where
                         timestamp: Instant::now(),
                     });
 
-                    let mut svc = service.clone();
+                    let svc = service.clone();
                     let r = req.clone();
                     let tx_c = tx.clone();
                     tokio::spawn(async move {
-                        let result = svc.call(r).await;
+                        let result = svc.oneshot(r).await;
                         let _ = tx_c.send((i, result)).await;
                     });
                 }
